@@ -241,7 +241,7 @@ def shard(args):
 
 
 def run(ctx):
-    nrand = 6000 if ctx.tier == 'quick' else 60000
+    nrand = 6000 if ctx.tier == 'quick' else 600000
     nsh = common.NCPU - 1
     shards = [{'kind': 'pairs'}] + [{
         'kind': 'random',
